@@ -92,13 +92,24 @@ def _case(text):
     return judge(text)
 
 
+VALID_FILE = "name ok\nversion 1.0\n\nfloat x = 0.5\nG(x) | 0\n"
+
+
 def _file_case(args):
     """blackbird.load of a file with this text must behave as loads does (C10 is stated for load/loads)"""
     text, d = args
     import blackbird
     from bbv.core import observe
     os.makedirs(d, exist_ok=True)
-    path = os.path.join(d, "c10_%d_%08x.xbb" % (os.getpid(), hash(text) & 0xFFFFFFFF))
+    # one working file per worker: the text under test replaces a valid script that has just been loaded from the
+    # same path (an editor saving over a file that was opened a moment ago)
+    path = os.path.join(d, "c10_%d.xbb" % os.getpid())
+    with open(path, "w", encoding="utf-8", newline="") as f:
+        f.write(VALID_FILE)
+    try:
+        blackbird.load(path)
+    except Exception:  # noqa
+        pass
     with open(path, "w", encoding="utf-8", newline="") as f:
         f.write(text)
     m = oracle().verdict(text)
@@ -108,8 +119,6 @@ def _file_case(args):
         out = ("PROGRAM",)
     except Exception as e:  # noqa
         out = ("BSE",) if type(e).__name__ == "BlackbirdSyntaxError" else ("OTHER", type(e).__name__, str(e).replace(d, "<D>")[:120])
-    finally:
-        os.unlink(path)
     if m[0] == "OK":
         # grammatical: any semantic outcome is fine here, but the file must be *readable*
         if out[0] == "OTHER" and out[1] in ("UnicodeDecodeError", "UnicodeError"):
